@@ -120,6 +120,20 @@ def ops : List (String × Op) := [
         pure ({ len := n, empty := e, bounds := b, order := o } : AcollAns))
       let pb := match ps, pe with | some s, some e => some (s, e) | _, _ => none
       pure (verdict (okAcollP pb genes fcs (bs, be) a))),
+  -- chunk-built twin of `acollp` (members and collection on the sequence chunk [ps, pe)): same required answers
+  ("acollk", do
+      let ps ← pOptNat; let pe ← pOptNat
+      let bs ← pOptNat; let be ← pOptNat
+      let genes ← pMembers true; let fcs ← pMembers false; pArrow
+      let a ← pAns (do
+        let n ← pNat; let e ← pBool
+        let b ← (do match (← get) with
+                    | "None" :: ts => set ts; pure none
+                    | _ => do let s ← pNat; let e ← pNat; pure (some (s, e)))
+        let o ← pList pKindIdx
+        pure ({ len := n, empty := e, bounds := b, order := o } : AcollAns))
+      let pb := match ps, pe with | some s, some e => some (s, e) | _, _ => none
+      pure (verdict (okAcollP pb genes fcs (bs, be) a))),
   -- accessors of the primary member, compared by the harness on real objects with sequence:
   -- `ok <p> <flags>`: every flag must be 1 (get_primary_transcript/feature is member p, and the sequence, CDS
   -- sequence and protein accessors return member p's values)
